@@ -172,6 +172,10 @@ def main(argv=None):
 
     t0 = time.time()
     os.makedirs(env.OUT, exist_ok=True)
+    import glob
+    for old in glob.glob(os.path.join(env.VERIF, 'replays', '%s-*.json' % prop)):   # replays of earlier runs are stale
+        try: os.remove(old)
+        except OSError: pass
     cases = all_cases(mod, tier)
     n = max(1, min(a.workers, len(cases), os.cpu_count() or 1))
     wtimeout = int(getattr(mod, 'WORKER_TIMEOUT', {}).get(tier, 900 if tier == 'quick' else 5400))
